@@ -39,3 +39,9 @@ CORPUS = [
     M("n-header-merged", L, "        header += bytes(4)  # Message ID\n        header += cls._timestamp()  # Timestamp", "        header += bytes(4) + cls._timestamp()  # Message ID + Timestamp", "S"),
 ]
 CORPUS[23].expect = "S"
+# round 3 (C02.e): nothing of one packet is left in a buffer the next call reuses
+CORPUS += [
+    M("header-cached-on-class", L, '        header = b"\\x5A\\x5A"  # Start of packet\n        header += b"\\x01\\x11"  # Message type\n        header += length.to_bytes(2, "little")  # Packet size',
+      '        if cls._hdr is None:\n            cls._hdr = bytearray(40)\n            cls._hdr[20:28] = device_id.to_bytes(8, "little")\n        cls._hdr[4:6] = length.to_bytes(2, "little")\n        header = b"\\x5A\\x5A"  # Start of packet\n        header += b"\\x01\\x11"  # Message type\n        header += bytes(cls._hdr[4:6])  # Packet size',
+      also=[(L, 'class _Packet:\n    """Class to encode/decode command frames to packets."""\n', 'class _Packet:\n    """Class to encode/decode command frames to packets."""\n\n    _hdr = None\n')]),
+]
